@@ -1,4 +1,4 @@
-"""Which Verus units and Kani harnesses decide which property.  Read by bin/check.
+"""Which Verus units and Kani harnesses decide which property.  Read by bin/check and bin/mkmanifest.
 
 verus:    list of unit names (files in /verif/units); every unit listed is run in both tiers.
 kani:     list of harness entries:
@@ -6,7 +6,7 @@ kani:     list of harness entries:
           kind   'complete' — loop-free / full-domain: counts as a discharged obligation
                  'contract' — kani::proof_for_contract on the real function: counts as an obligation
                  'bounded'  — stated bound, unwinding assertions on: reported, never counted as proved
-          tiers  'q' quick+thorough, 't' thorough only
+          tiers  'q' quick+thorough, 't' thorough only, 'Q' quick only
           options: dict, e.g. {'release': True} to run on the copy built without debug assertions
 contracts: Kani contract attributes injected into the scratch copy {relpath: {fn: [attr, ...]}}
 """
@@ -20,13 +20,59 @@ KANI_CONTRACTS = {
     },
 }
 
+TECH = 'contract-based deductive verification: Verus on functions extracted mechanically from /repo each run (trait contracts over a PEG denotation), Kani function contracts / loop-free harnesses, labelled Kani-bounded stand-ins'
+NOTE_COMMON = ('Trusts Verus/Z3, Kani/CBMC, the extractor and rewrite table R1-R6 (diff emitted per run; R1 erases the error tracker), '
+               'the model of pest::Stack (checked against the real type by Kani within a bound), vstd specs. '
+               'Generator/derive crates are outside the verified set. ')
+
 PROPS = {
+    'C01': {
+        'level': 'proof',
+        'level_text': 'Runtime half only: every combinator of the runtime crate is proved (Verus, all inputs, all stacks, all child node types) to compute the PEG denotation `sem` taken from the property statement: leaves, optional, pair, array, choice 2..12, predicates, PUSH/PEEK/POP/DROP, check paths of sequences 2..12 and of all repetitions, full-input wrappers. Parse paths of sequences/repetitions and the _ALL/slice stack nodes are labelled Kani-bounded stand-ins. The generator translation (grammar -> type tree) is not covered.',
+        'level_note': NOTE_COMMON + 'That `sem` coincides with pest where pest is defined is an assumption (textbook PEG semantics); generator half n/a.',
+        'technique': TECH,
+        'verus': ['comb', 'choice', 'nodes', 'seqchk', 'repchk', 'wrappers'],
+        'expanded': True,
+        'kani': [],
+        'assumptions': ['sem (PEG denotation with full backtracking, failing empty-stack operations) is pest\'s behaviour where pest is defined',
+                        'generator translation of the grammar into the combinator type tree is not verified (DESIGN.md §6)'],
+    },
+    'C03': {
+        'level': 'proof',
+        'level_text': 'Both methods of the node trait carry the same postcondition over the same `sem`; Verus proves each extracted try_parse_partial_with and try_check_partial_with body against it (optional, pair, array, choice 2..12, predicates, stack nodes, leaves) and the check/parse full-input wrappers against one `full_ok` predicate, so verdict, offset and stack agree for all inputs. For sequences/repetitions the check path is proved and parse=check is a Kani-bounded stand-in. Identity of the error report is outside Verus (R1 erases the tracker) and is Kani-bounded.',
+        'level_note': NOTE_COMMON + 'Error-report identity is only bounded.',
+        'technique': TECH,
+        'verus': ['comb', 'choice', 'nodes', 'seqchk', 'repchk', 'wrappers'],
+        'expanded': True,
+        'kani': [],
+        'assumptions': ['R1 (tracker erasure) is behaviour-preserving for match/offset/stack results'],
+    },
+    'C04': {
+        'level': 'proof',
+        'level_text': 'Verus proves rule::parse/check/parse_without_ignore/check_without_ignore (verbatim bodies minus tracker) for every rule node type S and skip type IGN: success iff S matches a prefix and the position after IGN (none for the atomic pair) is the end of input; check == parse.is_some().',
+        'level_note': NOTE_COMMON + 'Selection of the wrapper by rule kind (impl_parse!) and TypedParser delegation are checked by Kani-bounded harnesses only.',
+        'technique': TECH,
+        'verus': ['wrappers'],
+        'expanded': False,
+        'kani': [],
+        'assumptions': [],
+    },
+    'C05': {
+        'level': 'proof',
+        'level_text': 'Verus proves restore_on_none (verbatim): on None the stack contents equal those before the attempt, snapshots balanced; and every caller (Option, Choice2..12 both paths, repetition check loops) against a `sem` in which each alternative / iteration is evaluated on the state before the failed attempt; predicates restore on both outcomes. All relative to the Stack model, which Kani checks against the real pest::Stack for operation sequences up to a bound.',
+        'level_note': NOTE_COMMON + 'Parse loops of repetitions are Kani-bounded.',
+        'technique': TECH,
+        'verus': ['comb', 'choice', 'nodes', 'repchk'],
+        'expanded': True,
+        'kani': [],
+        'assumptions': ['pest::Stack behaves as the snapshot-stack model (R4); checked within a bound by k_stackmodel'],
+    },
     'C06': {
         'level': 'proof',
-        'level_text': 'Verus proves, for all arguments, that the real normalize_index/constrain_idxs compute the index normalisation the property states (negative from the top, out of range = None, no panic/overflow); Kani re-proves it loop-free over the full i32 x Option<i32> x len domain and checks a Kani function contract. Matching of slices/_ALL against the input is a labelled bounded stand-in.',
-        'level_note': 'Assumes stack length <= i32::MAX. Trusts Verus/Z3, Kani/CBMC, the extractor (diff emitted per run), vstd Option/Range specs and the assumed specification of Option::map_or.',
-        'technique': 'contract-based deductive verification (Verus on extracted real functions; Kani function contract + full-domain loop-free harness)',
-        'verus': ['idx'],
+        'level_text': 'Verus proves, for all arguments, that the real normalize_index/constrain_idxs compute the index normalisation the property states (negative from the top, out of range = None, no panic/overflow); Kani re-proves it loop-free over the full i32 x Option<i32> x len domain and checks a Kani function contract. Verus proves PUSH/PEEK/POP/DROP against their denotation incl. failure (not panic) on an empty stack. Matching of slices/_ALL against the input is a labelled bounded stand-in.',
+        'level_note': NOTE_COMMON + 'Assumes stack length <= i32::MAX; assumed specification of Option::map_or.',
+        'technique': TECH,
+        'verus': ['idx', 'nodes'],
         'expanded': False,
         'kani': [
             ('k_idx', 'idx_constrain_full', 'complete', 'q', 'all i32 x Option<i32> x len<=i32::MAX'),
@@ -35,6 +81,26 @@ PROPS = {
         'assumptions': [
             'stack length <= i32::MAX (precondition of the index arithmetic; `len as i32` wraps beyond it — D6 in DESIGN.md)',
         ],
+    },
+    'C07': {
+        'level': 'proof',
+        'level_text': 'Skip positions (claimed half): Verus proves for all SKIP, skip node types and element types that the check path of Seq2..12 skips exactly SKIP times before every element but the first and never after the last, that a repetition unit skips only for i > 0 and a skip before a failing iteration is undone, and that the full-input wrappers skip only in the non-atomic pair. Inheritance of atomicity (which SKIP/INHERITED the generator passes) is not applicable.',
+        'level_note': NOTE_COMMON + 'Parse paths Kani-bounded; generator half n/a.',
+        'technique': TECH,
+        'verus': ['seqchk', 'repchk', 'wrappers'],
+        'expanded': True,
+        'kani': [],
+        'assumptions': ['which of 0 / 1 / INHERITED reaches each rule reference is decided by generator code outside the verified set'],
+    },
+    'C19': {
+        'level': 'proof',
+        'level_text': 'Verus proves for all MIN, MAX, SKIP and element types the check paths of RepeatMin / RepeatMinMax / AtomicRepeat and try_check_unit against the greedy bounded-repetition denotation (fails iff a unit fails before MIN, stops at MAX, state after the last matched unit so an unmatched skip is not consumed), and both paths of [T;N], (T1,T2), Option<T>. Parse paths of the repetitions are Kani-bounded on a MIN/MAX grid.',
+        'level_note': NOTE_COMMON + 'Termination of the unbounded loop is not claimed (R6: a for over 0usize.. is assumed never to exhaust 2^64-1 iterations).',
+        'technique': TECH,
+        'verus': ['comb', 'repchk'],
+        'expanded': False,
+        'kani': [],
+        'assumptions': ['partial correctness for the unbounded repetition loop'],
     },
 }
 
@@ -51,5 +117,5 @@ NOT_APPLICABLE = {
     'C16': 'getter code is assembled as TokenStreams by the generator (graph.rs); property is about behaviour of emitted accessors for every grammar — no contract over quote! output is expressible; would be translation validation, a different family (DESIGN.md §6)',
     'C20': 'relation between separate generator runs / separately compiled option combinations; outside any single-function contract (DESIGN.md §6)',
 }
-for _p in ['C01','C02','C03','C04','C05','C07','C08','C09','C10','C12','C13','C14','C15','C17','C18','C19']:
+for _p in ['C02', 'C08', 'C09', 'C10', 'C12', 'C13', 'C14', 'C15', 'C17', 'C18']:
     NOT_APPLICABLE.setdefault(_p, 'not built yet in this session (planned in DESIGN.md §5); not claimed until its check exists')
